@@ -363,7 +363,7 @@ def write_evidence(prop, tier, seed, t0, fam, obligations, discharged, thm_detai
         'wall_s': round(time.time() - t0, 2), 'violations': nviol,
     }
     dest = os.path.join(VERIF, 'evidence', prop + '.json')
-    if DEV_MODE:
+    if DEV_MODE or os.environ.get('HB_EVIDENCE_DEV') == '1':      # development / seeded-change runs: keep evidence/ for real runs
         os.makedirs(os.path.join(WORK, 'evidence-dev'), exist_ok=True)
         dest = os.path.join(WORK, 'evidence-dev', prop + '.json')
     with open(dest, 'w') as f:
